@@ -220,7 +220,7 @@ def run_once_e3(cfg: E3Config, chooser: Chooser, *, world_hook=None, around_run=
                 [lab.is_cached(t) for t in built.canon]
             try:
                 with quiet, (around_run(world) if around_run is not None else contextlib.nullcontext()):
-                    res = lab.run_tasks(req, bust_cache=base.bust_cache, disable_progress=not cfg.monitor, disable_top=not cfg.monitor,
+                    res = lab.run_tasks(req, **({'bust_cache': True} if base.bust_cache else {}), disable_progress=not cfg.monitor, disable_top=not cfg.monitor,
                                         **({'top_n': 1} if cfg.monitor else {}))     # a display smaller than the number of workers
                 outcome = ('return', res)
             except (Spin, Livelock) as e:
